@@ -214,7 +214,13 @@ class ExpressionManager(object):
             n = up.model.fnode.FNode(content, self._next_free_id, self.environment)
             self._next_free_id += 1
             self.expressions[content] = n
-            self.environment.type_checker.get_type(n)
+            try:
+                self.environment.type_checker.get_type(n)
+            except BaseException:
+                # an ill-typed node must not stay hash-consed: building the same
+                # expression again has to be rejected again
+                del self.expressions[content]
+                raise
             return n
 
     def And(
